@@ -168,6 +168,10 @@ def run(tier):
         rep.merge(sh)
     # --- driver E: expressions
     eitems = list(gen_expr.e1_programs()) + list(gen_expr.e2_programs(2 if tier == "quick" else 3))
+    # return analysis: every {returns, falls through} assignment over chains of <= 4 conditional arms + final arm
+    rc = [(s, p, i, 2 if "/main" in lab else 4) for s, p, i, lab in gen_ctrl.return_chains(4 if tier == "thorough" else 3)]
+    rep.bounds["return_chain_programs"] = len(rc)
+    eitems += rc
     e3 = list(gen_expr.e3_programs())
     rep.bounds["E3.operator_pairs_x_nestings"] = len(e3)
     eitems += e3
@@ -179,6 +183,10 @@ def run(tier):
     rep.bounds["R.recipes"] = len(ritems)
     for sh in common.pmap_shards(_worker_expr, ritems, order_seed=rep.seed):
         rep.merge(sh)
+    # one OptimizeOptions object used for two different programs (as Router.compile_program does): the second
+    # program must still behave as when compiled alone
+    from . import c03
+    c03.shared_options_driver(rep, mode="behaviour")
     rep.counters["distinct_nontrivial"] = rep.counters.get("states", 0)
     rep.assumptions = [
         "reference AVM interpreter vf/avm (anchored by its self-test and the golden TEAL corpus)",
@@ -194,6 +202,9 @@ def run(tier):
 
 def replay(case):
     """re-execute one recorded case without the explorer; returns True if it still violates"""
+    if case.get("driver") == "shared-options":
+        from . import c03
+        return c03.replay_shared(case, "behaviour", PID)
     cfg = rb.Cfg.from_json(case["cfg"])
     out = _new_out()
     check_program(case["recipe"], [cfg], [case["input"]], drive.ExecCache(), out)
